@@ -404,6 +404,79 @@ def part_a(ctx, only=None):
     structural_tie(ctx, 'c03struct', struct_items)
 
 
+# ----------------------------------------------------------------------------- (a-wide)
+
+def part_a_wide(ctx, only=None):
+    """the lowered arithmetic at operand widths beyond the exhaustive tables (5..15 quick, 5..24 thorough, equal and
+    mixed): the column heights of the Wallace tree in _basic_mult, the carry chain of _basic_add/_basic_sub and the
+    MSB-peeling comparators depend on the width, so a flaw can exist at a few widths only.  Directed values: every pair
+    of single bits (each partial product alone), all-ones, alternating patterns, one below/above a power of two, and
+    random values; oracle: Python integers."""
+    quick = ctx.tier == 'quick'
+    top = 15 if quick else 24
+    pairs = [(w, w) for w in range(5, top + 1)]
+    rng0 = ctx.sub_rng('a-wide', 'pairs')
+    pairs += [(rng0.randint(5, top), rng0.randint(1, top)) for _ in range(4 if quick else 20)]
+    pairs += [(b, a) for a, b in pairs[-2:]]
+    if only:
+        pairs = [tuple(only)]
+    for wa, wb in pairs:
+        rng = ctx.sub_rng('a-wide', wa, wb)
+        merge = (wa + wb) % 2 == 1
+        pyrtl.reset_working_block()
+        a = pyrtl.Input(wa, 'a')
+        b = pyrtl.Input(wb, 'b')
+        exps = {'mul': lambda x, y: x * y, 'add': lambda x, y: x + y,
+                'sub': lambda x, y: (x - y) % (1 << (max(wa, wb) + 1)),
+                'lt': lambda x, y: int(x < y), 'gt': lambda x, y: int(x > y), 'eq': lambda x, y: int(x == y)}
+        wires = {'mul': a * b, 'add': a + b, 'sub': a - b, 'lt': a < b, 'gt': a > b, 'eq': a == b}
+        outs = {}
+        for nm, wv in wires.items():
+            o = pyrtl.Output(len(wv), nm)
+            o <<= wv
+            outs[nm] = o
+        orig = pyrtl.working_block()
+        orig_inputs = [a, b]
+        try:
+            post = pyrtl.synthesize(update_working_block=False, merge_io_vectors=merge, block=orig)
+            sim = pyrtl.Simulation(tracer=None, block=post)
+        except Exception as e:
+            ctx.spec_violation('synthesize:raises', 'synthesize/Simulation raised on the wide op design %dx%d: %s' % (wa, wb, e),
+                               {'part': 'a-wide', 'wa': wa, 'wb': wb, 'merge_io_vectors': merge})
+            continue
+        ma, mb = (1 << wa) - 1, (1 << wb) - 1
+        vals = [(1 << i, 1 << j) for i in range(wa) for j in range(wb)]
+        specials_a = [0, ma, ma >> 1, 1 << (wa - 1), (1 << (wa - 1)) + 1, 0x5555555555 & ma, 0xAAAAAAAAAA & ma, ma - 1]
+        specials_b = [0, mb, mb >> 1, 1 << (wb - 1), (1 << (wb - 1)) + 1, 0x5555555555 & mb, 0xAAAAAAAAAA & mb, max(mb - 1, 0)]
+        vals += [(x, y) for x in specials_a for y in specials_b]
+        vals += [(x, x & mb) for x in specials_a] + [(y & ma, y) for y in specials_b]
+        vals += [(rng.getrandbits(wa), rng.getrandbits(wb)) for _ in range(40 if quick else 200)]
+        if only:
+            vals = vals + [(x, y) for x in range(min(1 << wa, 64)) for y in range(min(1 << wb, 64))]
+        ctx.count('wide_width_pairs', '%dx%d' % (wa, wb))
+        reported = set()
+        try:
+            for x, y in vals:
+                sim.step(step_inputs(post, orig_inputs, {'a': x, 'b': y}, merge))
+                ctx.case(('a-wide', wa, wb, x, y), nontrivial=True,
+                         sample={'part': 'a-wide', 'wa': wa, 'wb': wb, 'x': x, 'y': y} if (wa, wb, x, y) == (5, 5, 16, 2) else None)
+                for nm, o in outs.items():
+                    got = read_output(sim, post, o, merge)
+                    exp = exps[nm](x, y)
+                    if got != exp and nm not in reported:
+                        reported.add(nm)
+                        ctx.spec_violation('synthesize:op=%s' % nm,
+                                           'synthesized %s wrong at widths %dx%d: %d,%d -> %d, expected %d'
+                                           % (nm, wa, wb, x, y, got, exp),
+                                           {'part': 'a-wide', 'op': nm, 'wa': wa, 'wb': wb, 'x': x, 'y': y,
+                                            'merge_io_vectors': merge, 'expected': exp, 'got': got,
+                                            'repro': "a=Input(%d,'a'); b=Input(%d,'b'); o=Output(name='o'); o<<=<a %s b>; "
+                                                     "synthesize(); Simulation().step({'a':%d,'b':%d})" % (wa, wb, nm, x, y)})
+        except Exception as e_run:
+            ctx.spec_violation('synthesize:testbench-raises', 'stepping the synthesized wide op design %dx%d raised %s: %s' % (
+                wa, wb, type(e_run).__name__, str(e_run)[:200]), {'part': 'a-wide', 'wa': wa, 'wb': wb, 'merge_io_vectors': merge})
+
+
 # ----------------------------------------------------------------------------- (a')
 
 def part_a_truncated(ctx):
@@ -1476,6 +1549,9 @@ def classify_mismatch(ctx, d, block, merge, regmap, memmap, inputs, t_orig, t_po
 
 def run(ctx):
     part_a(ctx)
+    t_w = __import__('time').time()
+    part_a_wide(ctx)
+    ctx.notes.append('part_a_wide %.1fs' % (__import__('time').time() - t_w))
     part_a_truncated(ctx)
     part_b(ctx)
     pyrtl.reset_working_block()
@@ -1489,6 +1565,8 @@ def replay(ctx, data):
     part = rep.get('part')
     if part == 'a':
         part_a(ctx, only=(rep['wa'], rep['wb']))
+    elif part == 'a-wide':
+        part_a_wide(ctx, only=(rep['wa'], rep['wb']))
     elif part == 'a-truncated':
         part_a_truncated(ctx)
     elif part == 'b':
